@@ -133,6 +133,8 @@ def prepare(repo, dst):
         if not os.path.exists(tp):
             raise PrepError('anchor lost: %s' % target)
         body = open(hp).read()
+        # every harness stubs alloc::fmt::format (see kani/common.rs stub_format)
+        body = body.replace('#[kani::proof]', '#[kani::proof]\n    #[kani::stub(std::fmt::format, crate::verif_kani::stub_format)]')
         with open(tp, 'a') as f:
             f.write('\n#[cfg(kani)]\npub(crate) mod verif_k {\n  #![allow(unused_imports, unused_variables, dead_code)]\n  use super::*;\n  use crate::verif_kani::*;\n%s\n}\n' % body)
     return dst
